@@ -466,6 +466,50 @@ class Machine:
                 except (ValueError, OverflowError, struct.error):
                     return OPAQUE
             return OPAQUE
+        if name in ('nextafter', 'nextafterf', 'ldexp', 'ldexpf', 'scalbn', 'scalbnf', 'fmin', 'fmax', 'copysign', 'fmod', 'trunc', 'truncf',
+                    'nearbyint', 'fma', 'fmaf', 'hypot', 'atan2', 'tan', 'atan', 'acos', 'asin', 'sincos'):
+            if name == 'sincos':
+                raise Unsupported('external function without a model: %s (called at %s)' % (name, loc))
+            if all(isinstance(a, float) or is_int(a) for a in args):
+                import struct
+                f32 = lambda v: struct.unpack('<f', struct.pack('<f', v))[0]      # noqa
+                try:
+                    a = [float(x) if not (name in ('ldexp', 'ldexpf', 'scalbn', 'scalbnf') and j == 1) else int(x) for j, x in enumerate(args)]
+                    if name == 'nextafter':
+                        return math.nextafter(a[0], a[1])
+                    if name == 'nextafterf':
+                        import numpy as np
+                        return float(np.nextafter(np.float32(a[0]), np.float32(a[1])))
+                    if name in ('ldexp', 'scalbn'):
+                        return math.ldexp(a[0], a[1] - (1 << 32) if a[1] >= (1 << 31) else a[1])
+                    if name in ('ldexpf', 'scalbnf'):
+                        return f32(math.ldexp(a[0], a[1] - (1 << 32) if a[1] >= (1 << 31) else a[1]))
+                    if name == 'fmin':
+                        return min(a)
+                    if name == 'fmax':
+                        return max(a)
+                    if name == 'copysign':
+                        return math.copysign(a[0], a[1])
+                    if name == 'fmod':
+                        return math.fmod(a[0], a[1])
+                    if name in ('trunc', 'truncf'):
+                        return float(math.trunc(a[0]))
+                    if name == 'nearbyint':
+                        return float(round(a[0]))
+                    if name == 'fma':
+                        from fractions import Fraction
+                        return float(Fraction(a[0]) * Fraction(a[1]) + Fraction(a[2]))
+                    if name == 'fmaf':
+                        from fractions import Fraction
+                        return f32(float(Fraction(a[0]) * Fraction(a[1]) + Fraction(a[2])))
+                    if name == 'hypot':
+                        return math.hypot(a[0], a[1])
+                    if name == 'atan2':
+                        return math.atan2(a[0], a[1])
+                    return float(getattr(math, name)(a[0]))
+                except (ValueError, OverflowError, struct.error):
+                    return OPAQUE
+            return OPAQUE
         if name == 'pow':
             if all(isinstance(a, float) for a in args):
                 try:
